@@ -27,6 +27,7 @@ Record case := mkcase {
   c_files : list gfile;            (* in add order *)
   c_code : option str;             (* None = the default argument of to_nifti *)
   c_exact : bool;                  (* every float operation of the implementation is exact on this input *)
+  c_pos_exact : bool;              (* ... including np.inner(ipp, slice_normal) of every file *)
   c_faffs : list mat;              (* observed single-file NIfTI affines (from_dicom_wrapper), parallel to c_files *)
   c_rescale : list rescale;        (* stored pixels and scale factors of every file, parallel to c_files *)
   c_qaff : option mat;             (* result of DicomStack.get_affine() as an early / the FIRST query on a fresh stack (None: not observed) *)
@@ -70,9 +71,9 @@ Definition mat_close (exact : bool) (a b : mat) : bool :=
           (combine a b).
 
 (** the DicomWrapper contract on one file: single-file affine, slice indicator *)
-Definition contract_ok (exact : bool) (g : gfile) (A : mat) : bool :=
+Definition contract_ok (exact pexact : bool) (g : gfile) (A : mat) : bool :=
   mat_close exact (file_affine g) A &&
-  q_close false (this (f_pos (g_file g))) (slice_indicator g).
+  q_close pexact (this (f_pos (g_file g))) (slice_indicator g).
 
 Fixpoint rescales_ok (gs : list gfile) (rs : list rescale) : bool :=
   match gs, rs with
@@ -81,10 +82,10 @@ Fixpoint rescales_ok (gs : list gfile) (rs : list rescale) : bool :=
   | _, _ => false
   end.
 
-Fixpoint contracts_ok (exact : bool) (gs : list gfile) (As : list mat) : bool :=
+Fixpoint contracts_ok (exact pexact : bool) (gs : list gfile) (As : list mat) : bool :=
   match gs, As with
   | [], [] => true
-  | g :: gr, A :: Ar => contract_ok exact g A && contracts_ok exact gr Ar
+  | g :: gr, A :: Ar => contract_ok exact pexact g A && contracts_ok exact pexact gr Ar
   | _, _ => false
   end.
 
@@ -120,7 +121,7 @@ Definition check_qaff (c : case) : bool :=
 (** values + geometry + reported transform (C02).  The private state left behind by the call ([check_state]: order of
     _files_info, _shape_dirty) is NOT part of either check: only public results are compared. *)
 Definition check_geom (c : case) : bool :=
-  contracts_ok (c_exact c) (c_files c) (c_faffs c) && rescales_ok (c_files c) (c_rescale c) && check_qaff c &&
+  contracts_ok (c_exact c) (c_pos_exact c) (c_files c) (c_faffs c) && rescales_ok (c_files c) (c_rescale c) && check_qaff c &&
   match model c with
   | (Err _, _) => false                                   (* every add of a case succeeds *)
   | (Ok _, (st', r)) =>
